@@ -4,3 +4,5 @@ pub mod c03;
 pub mod c13;
 pub mod c07;
 pub mod c12;
+pub mod c04;
+pub mod c05;
